@@ -14,6 +14,7 @@ import (
 	"testing"
 	"time"
 
+	"github.com/tsenart/vegeta/v12/internal/zzverif/vgen"
 	"github.com/tsenart/vegeta/v12/internal/zzverif/vh"
 	vegeta "github.com/tsenart/vegeta/v12/lib"
 	"pgregory.net/rapid"
@@ -42,6 +43,11 @@ type c15Case struct {
 	Eager string `json:",omitempty"`
 	// static: every NilEvery-th call of a goroutine passes a nil *Target (rejected with ErrNilTarget: not a draw)
 	NilEvery int `json:",omitempty"`
+	// stream kinds: the source hands out its data in chunks of this size and returns the last chunk together with io.EOF
+	// (a response body of known length, a decompressor)
+	EOFChunk int `json:",omitempty"`
+	// http: every goroutine decodes into one Target variable of its own again and again and keeps copies of what it drew
+	ReuseVar bool `json:",omitempty"`
 }
 
 func c15Letters(i int) string {
@@ -203,10 +209,14 @@ func evalC15(c c15Case) (active int, err error) {
 	}
 	defHdr := c15Defaults(c)
 	var tr vegeta.Targeter
+	var src io.Reader = strings.NewReader(text)
+	if c.EOFChunk > 0 {
+		src = &vgen.ChunkReader{Data: []byte(text), Sizes: []int{c.EOFChunk}, EOFWithData: true}
+	}
 	if c.Kind == "http" {
-		tr = vegeta.NewHTTPTargeter(strings.NewReader(text), []byte("default-body"), defHdr)
+		tr = vegeta.NewHTTPTargeter(src, []byte("default-body"), defHdr)
 	} else {
-		tr = vegeta.NewJSONTargeter(strings.NewReader(text), []byte("default-body"), defHdr)
+		tr = vegeta.NewJSONTargeter(src, []byte("default-body"), defHdr)
 	}
 	type out struct {
 		got  []int
@@ -224,9 +234,30 @@ func evalC15(c c15Case) (active int, err error) {
 			o := &outs[g]
 			ready.Done()
 			<-start
+			var reused vegeta.Target
+			var kept []vegeta.Target
+			defer func() {
+				// the copies kept are still the targets that were drawn
+				for k := range kept {
+					if k >= len(o.got) {
+						break
+					}
+					if idx, cerr := c15Index(&kept[k], c); (cerr != nil || idx != o.got[k]) && o.err == nil {
+						o.err = fmt.Errorf("goroutine %d decoded into one Target variable again and again: the copy kept of its draw %d (target %d) has changed afterwards: %v", g, k, o.got[k], cerr)
+					}
+				}
+			}()
 			for n := 0; n <= c.Targets+1; n++ {
-				var t vegeta.Target
-				err := tr(&t)
+				var fresh vegeta.Target
+				tp := &fresh
+				if c.ReuseVar {
+					tp = &reused
+				}
+				err := tr(tp)
+				t := *tp
+				if err == nil && c.ReuseVar {
+					kept = append(kept, t)
+				}
 				if err == vegeta.ErrNoTargets {
 					o.done = true
 					break
@@ -410,7 +441,11 @@ func TestC15Concurrent(t *testing.T) {
 			c.Headers = rapid.IntRange(0, 4).Draw(t, "headers")
 			c.Bodies = rapid.Bool().Draw(t, "bodies")
 			c.SharedDef = rapid.Bool().Draw(t, "shareddef")
+			if rapid.IntRange(0, 2).Draw(t, "eofchunk") == 0 {
+				c.EOFChunk = rapid.SampledFrom([]int{1 << 30, 4096, 100, 7}).Draw(t, "eofchunkn")
+			}
 			if c.Kind == "http" {
+				c.ReuseVar = rapid.IntRange(0, 2).Draw(t, "reusevar") == 0
 				c.Compact = rapid.Bool().Draw(t, "compact")
 				c.Comments = rapid.IntRange(0, 3).Draw(t, "comments")
 			}
